@@ -337,3 +337,20 @@ Proof.
     rewrite (dec_enc entry_fmt (entry_v e) b1 (b2 ++ rest) Hwe E1).
     rewrite (IH b2 rest Hwl eq_refl). reflexivity.
 Qed.
+
+(* ---------- the whole file, as bytes, reads back as the state (C06 + C10 end to end) ---------- *)
+Theorem parse_file_bytes version cd md ad s bs :
+  wfb header_fmt (header_v version (s_n s) cd md ad) = true ->
+  Forall (fun e => wfb entry_fmt (entry_v e) = true) (tab s) ->
+  zlength (tab s) = s_n s ->
+  file_bytes version cd md ad s = Some bs ->
+  parse_file bs = Some (header_v version (s_n s) cd md ad, map entry_v (tab s), data s).
+Proof.
+  intros Hh He Hn Hf. unfold file_bytes in Hf.
+  destruct (enc header_fmt (header_v version (s_n s) cd md ad)) as [h|] eqn:Eh; [|discriminate].
+  destruct (enc_entries (tab s)) as [t|] eqn:Et; [|discriminate]. inversion Hf; subst bs.
+  unfold parse_file. rewrite (dec_enc header_fmt _ h (t ++ data s) Hh Eh).
+  replace (vint (vnth 2 (header_v version (s_n s) cd md ad))) with (s_n s) by reflexivity.
+  replace (Z.to_nat (s_n s)) with (length (tab s)) by (rewrite <- Hn, zlength_correct; lia).
+  now rewrite (dec_entries_enc (tab s) t (data s) He Et).
+Qed.
